@@ -1018,3 +1018,65 @@ package mcp
 //@   modifies *
 //@   loop 3: invariant @ids-seen-so-far-are-not-in-flight c.requestStreams == at(locked_cmu_1, c.requestStreams) && (forall id jsonrpc2.ID :: {inDom(c.requestStreams, id)} (id in $visited) ==> !inDom(c.requestStreams, id)) && (forall id jsonrpc2.ID :: {inDom(c.requestStreams, id)} inDom(c.requestStreams, id) <==> at(locked_cmu_1, inDom(c.requestStreams, id)))
 //@   loop 4: invariant @only-fresh-ids-get-routes c.requestStreams == at(locked_cmu_1, c.requestStreams) && (forall id jsonrpc2.ID :: {inDom(local(calls), id)} inDom(local(calls), id) ==> !at(locked_cmu_1, inDom(c.requestStreams, id))) && (forall id jsonrpc2.ID :: {rawGet(c.requestStreams, id)} at(locked_cmu_1, inDom(c.requestStreams, id)) ==> inDom(c.requestStreams, id) && rawGet(c.requestStreams, id) == at(locked_cmu_1, rawGet(c.requestStreams, id)))
+
+// ---------------------------------------------------------------------------------------------
+// C09: the streamable client's SSE loop
+// ---------------------------------------------------------------------------------------------
+
+// handleSSE drives one logical response stream over successive HTTP bodies. cursor is the id of the last event
+// received completely on the logical stream (across bodies). Reconnects carry exactly that id; and the loop gives
+// up on a pending call only if the client closed, there is no cursor at all, the connection was failed (retries
+// exhausted, reconnect or status error), or the caller's context is cancelled.
+//@ func (*streamableClientConn).handleSSE [C09]
+//@   track processStreamFrom as body
+//@   track connectSSE as reconnect
+//@   track (*streamableClientConn).fail as failConn
+//@   track ctx.Err as cancelled
+//@   ghostvar cursor string = ""
+//@   on call processStreamFrom: cursor = ($result.0 != "" ? $result.0 : cursor)
+//@   requires c != nil && resp != nil
+//@   modifies *
+//@   assert at call processStreamFrom: @each-body-continues-the-logical-stream $5 == cursor
+//@   assert at call connectSSE: @resumes-from-the-last-complete-event $2 == cursor
+//@   ensures @gives-up-only-when-unresumable forCall != nil ==> lastResult(body, 2) || cursor == "" || calls(failConn) >= 1 || (calls(cancelled) >= 1 && lastResult(cancelled, 0) != nil)
+//@   loop 1: invariant @cursor-is-carried-along local(lastEventID) == cursor && calls(failConn) == 0 && local(resp) != nil
+
+// processStreamFrom reads one HTTP body of a logical stream whose cursor so far is resumeID. The cursor it hands back
+// is the id of the last event received in this body, or resumeID if the body brought none: a cursor is never
+// forgotten. The synthetic "terminated without response" error is produced only when there is no cursor at all.
+//@ func (*streamableClientConn).fail [C09]
+//@   requires c != nil
+//@   modifies extern
+//@   modifies c._failure, chanState
+//@ func (*streamableClientConn).processStreamFrom [C09]
+//@   track fmt.Errorf as synthetic
+//@   track DecodeMessage as decode
+//@   requires c != nil && resp != nil
+//@   modifies *
+//@   rangeloop invariant @cursor-only-moves-forward resumeID != "" ==> local(lastEventID) != ""
+//@   ensures @cursor-is-never-forgotten !result.2 && resumeID != "" ==> result.0 != ""
+//@   ensures @synthetic-error-only-without-a-cursor !result.2 && calls(synthetic) >= 1 ==> result.0 == ""
+//@   ensures @closed-paths-hand-back-nothing result.2 ==> result.0 == "" && result.1 == 0
+
+// connectSSE: every reconnect request names the resume cursor it was given in Last-Event-ID; the number of requests
+// is bounded by the retry budget; a response is handed back exactly when there is no error.
+// (HTTP header names are case-insensitive; these two differ.)
+//@ axiom lower("Accept") != lower(lastEventIDHeader)
+//@ func (*streamableClientConn).connectSSE [C09]
+//@   track Do as send
+//@   heapfacts off
+//@   requires c != nil
+//@   assume c.maxRetries >= 0 && c.maxRetries < 4611686018427387904   // the retry budget is a small non-negative number
+//@   modifies *
+//@   ensures @response-iff-no-error (result.1 == nil ==> result.0 != nil) && (result.1 != nil ==> result.0 == nil)
+//@   ensures @attempts-are-bounded calls(send) <= old(c.maxRetries) + 1
+//@   assert at call Do: @reconnect-names-the-cursor lastEventID != "" ==> hdrGet($1.Header, lastEventIDHeader) == lastEventID
+//@   loop 1: invariant @one-request-per-attempt local(attempt) >= 0 && calls(send) <= local(attempt) && local(attempt) <= old(c.maxRetries) + 1 && c.maxRetries == old(c.maxRetries)
+// setMCPHeaders fills in request headers (authorization, protocol version, session id): it writes the request it is
+// given and library state only (assumed, not verified: it runs the OAuth token source).
+//@ func (*streamableClientConn).setMCPHeaders
+//@   trusted
+//@   modifies extern
+
+//@ func calculateReconnectDelay [C09]
+//@   modifies extern
